@@ -177,6 +177,17 @@ func (b *builder) build(x *xExpr) carapace.Action {
 		return b.build(x.E).NoSpace([]rune(x.S)...)
 	case "suppress":
 		return b.build(x.E).Suppress(regexp.QuoteMeta(x.S))
+	case "suppressN":
+		// several expressions in one call (none, or quoted literals, the first possibly with an inline flag)
+		ps := []string{}
+		for _, p := range x.Xs {
+			if strings.HasPrefix(p, "(?i)") {
+				ps = append(ps, "(?i)"+regexp.QuoteMeta(p[4:]))
+			} else {
+				ps = append(ps, regexp.QuoteMeta(p))
+			}
+		}
+		return b.build(x.E).Suppress(ps...)
 	case "unless":
 		return b.build(x.E).Unless(x.B)
 	case "shift":
@@ -306,7 +317,7 @@ func runInvoke(raw json.RawMessage) interface{} {
 		}
 		out["members"] = ms
 	}
-	if in.Expr.E != nil && in.Expr.K != "stored" {
+	if in.Expr.E != nil && in.Expr.K != "stored" && in.Expr.K != "import" && in.Expr.K != "suppressN" {
 		out["inner"] = invokeSafe((&builder{}).build(in.Expr.E), in.Ctx.toContext())
 		if in.Expr.K == "pfx" {
 			// the Prefix law: p+x is completed as p + completion of x. x is computed here from the typed
@@ -487,6 +498,11 @@ func genExpr(r *rng, depth int) *xExpr {
 	case 10:
 		return &xExpr{K: "nospace", S: pick(r, []string{"", "/", "/=", "*", "é"}), E: inner()}
 	case 11:
+		if r.chance(50) {
+			// each expression is matched on its own: an empty list suppresses nothing, a flag of one expression does not reach the next
+			in := &xExpr{K: "batch", Es: []*xExpr{inner(), {K: "message", M: "msg lower"}, {K: "message", M: "OTHER upper"}}}
+			return &xExpr{K: "suppressN", Xs: pick(r, [][]string{{}, {"(?i)zzz", "MSG"}, {"(?i)qqq", "other"}, {"zzz", "msg"}, {"msg", "OTHER"}, {"(?i)zzz"}}), E: in}
+		}
 		return &xExpr{K: "suppress", S: pick(r, []string{"msg", "zzz", "(", "msg a"}), E: inner()}
 	case 12:
 		return &xExpr{K: "unless", B: r.chance(40), E: inner()}
@@ -757,6 +773,32 @@ func genRepeat(r *rng, tier string) interface{} {
 		c.Value = ""
 		c.CI = false
 		return repeatIn{Expr: e, Ctx: c, Shell: pick(r, []string{"fish", "export", "elvish"}), N: 40}
+	}
+	if r.chance(12) {
+		// displays that differ only in case, rebuilt from maps (Batch / MultiParts): their order must not vary
+		tw := func() *xExpr {
+			x := &xExpr{K: "values", Vs: [][3]string{}}
+			for _, v := range []string{"README", "Readme", "readme", "Docs/a", "docs/b", "DOCS/c", "other"} {
+				if r.chance(70) {
+					x.Vs = append(x.Vs, [3]string{v, pick(r, []string{"", "d"}), ""})
+				}
+			}
+			return x
+		}
+		e = &xExpr{K: "batch", Es: []*xExpr{tw(), tw()}}
+		if r.chance(40) {
+			e = &xExpr{K: "multiParts", Xs: []string{"/"}, E: e}
+		}
+		c := xCtx{}
+		return repeatIn{Expr: e, Ctx: c, Shell: pick(r, []string{"fish", "bash", "zsh", "elvish", "nushell", "tcsh"}), N: 40}
+	}
+	if r.chance(12) {
+		// members with different tags whose values share the leading segment: the tag of the segment must not vary
+		m1 := &xExpr{K: "tag", S: "branches", E: &xExpr{K: "plain", Ps: []string{"origin/main", "origin/dev", "up/x"}}}
+		m2 := &xExpr{K: "tag", S: "tags", E: &xExpr{K: "plain", Ps: []string{"origin/v1", "origin/v2", "up/y"}}}
+		e = &xExpr{K: "multiParts", Xs: []string{"/"}, E: &xExpr{K: "batch", Es: []*xExpr{m1, m2}}}
+		c := xCtx{Value: pick(r, []string{"", "o"})}
+		return repeatIn{Expr: e, Ctx: c, Shell: pick(r, []string{"zsh", "export", "zsh"}), N: 40}
 	}
 	switch r.intn(5) {
 	case 0:
